@@ -124,6 +124,13 @@ theorem unflatten_ref_within (nm n : Nat) (hn : 0 < n) :
   · intro h; exact ⟨nm / n, by rw [Nat.mul_comm]; exact h.symm⟩
   · intro h; exact Nat.div_mul_cancel h
 
+/-- writes through a mutable regrouped view reach the original: the view is derived from `self`
+    with mutable provenance (a reference transmute or `as_mut_ptr`, never a shared pointer) -/
+theorem regrouped_provenance :
+    Mem.flattenRefProvenanceOk = true ∧ Mem.flattenMutProvenanceOk = true ∧
+    Mem.unflattenRefProvenanceOk = true ∧ Mem.unflattenMutProvenanceOk = true := by
+  simp [ga_bridge]
+
 -- non-vacuity
 example : flattenOwned [[1, 2], [3, 4], [5, 6]] 2 4 = .ok [1, 2, 3, 4, 5, 6] := by decide
 example : unflattenOwned [1, 2, 3, 4, 5, 6] 2 4 = .ok [[1, 2], [3, 4], [5, 6]] := by decide
@@ -138,3 +145,4 @@ end GA.Props.C11
 #print axioms GA.Props.C11.flatten_unflatten
 #print axioms GA.Props.C11.flatten_ref_same_extent
 #print axioms GA.Props.C11.unflatten_ref_within
+#print axioms GA.Props.C11.regrouped_provenance
